@@ -7,6 +7,7 @@ package dsmr
 //@ type ChunkCertificate valuelike
 //@ type emapChunkCertificate valuelike
 //@ type validityWindowBlock opaque
+//@ type github.com/ava-labs/avalanchego/utils/set.Bits opaque
 //@ type github.com/ava-labs/avalanchego/vms/platformvm/warp.BitSetSignature valuelike
 
 //@ func Block.GetID
@@ -40,3 +41,20 @@ package dsmr
 //@   ensures err == nil ==> TimeValidityWindow.VerifyExpiryReplayProtection(n.validityWindow, NewValidityWindowBlock(block)) == nil
 //@   ensures err == nil ==> forall j int :: 0 <= j && j < len(block.ChunkCerts) ==> block.ChunkCerts[j].Expiry >= block.Timestamp
 //@   ensures err == nil ==> forall j int :: 0 <= j && j < len(block.ChunkCerts) ==> ChunkCertificate.Verify(block.ChunkCerts[j], n.chainState) == nil
+
+//@ func (*ChunkStorage).GatherChunkCerts
+//@   trusted
+//@   noframe
+//@   ensures forall j int :: 0 <= j && j < len(result) ==> !isnil(result[j])
+//@ func TimeValidityWindow.IsRepeat
+//@   noframe
+
+// The builder (C37) only produces blocks on top of the parent with a later timestamp, at least one
+// chunk, and no certificate that expired before the block's timestamp.
+//@ func (*Node).BuildBlock props C37
+//@   loop 1 invariant 0 <= idx1 && idx1 <= len(emapChunkCerts) && len(emapChunkCerts) == len(gatheredChunkCerts)
+//@   loop 2 invariant 0 <= idx2 && idx2 <= len(gatheredChunkCerts)
+//@   loop 2 invariant forall j int :: 0 <= j && j < len(availableChunkCerts) ==> !isnil(availableChunkCerts[j]) && availableChunkCerts[j].Expiry >= timestamp
+//@   ensures err == nil ==> result0.Timestamp == timestamp && timestamp > parent.Timestamp && result0.ParentID == Block.GetID(parent)
+//@   ensures err == nil ==> len(result0.ChunkCerts) > 0
+//@   ensures err == nil ==> forall j int :: 0 <= j && j < len(result0.ChunkCerts) ==> !isnil(result0.ChunkCerts[j]) && result0.ChunkCerts[j].Expiry >= result0.Timestamp
